@@ -203,6 +203,11 @@ def run(idx, rep, tier):
                 badc = badc or detail
     rep.check(badc is None, "R2", f"{fm.file}::Matcher.matches table clear-errors", badc or f"{len(rows)} rows", K.where(fm, fm.node))
 
+    # an exception that leaves a member of a group is handled with that member as the handler's csvpath: its own policy decides and it is the
+    # member that 'fail' marks invalid (the serial drivers' table, handler-wiring aspect)
+    from . import c08 as _c08
+    _c08.serial(idx, rep, "R2", aspects=("handler-wiring",))
+
     # ------------------------------------------------------------------ R3
     _r3(idx, rep)
     _r3_frozen(idx, rep)
